@@ -195,11 +195,14 @@ impl Cfg {
             Fmt::F64 => (self.parse64)(int, frac, exp),
         }
     }
+    /// Coverage accounting only: never lets a panic of the code under test escape
+    /// (a panicking path classifies as "unclassified").
     pub fn path(&self, fmt: Fmt, int: &[u8], frac: &[u8], exp: i32) -> PathInfo {
-        match fmt {
+        crate::guard::catch(|| match fmt {
             Fmt::F32 => (self.path32)(int, frac, exp),
             Fmt::F64 => (self.path64)(int, frac, exp),
-        }
+        })
+        .unwrap_or_default()
     }
     pub fn moderate(&self, fmt: Fmt, w: u64, q: i32, t: bool) -> (u64, i32) {
         match fmt {
